@@ -49,6 +49,7 @@ from flexstack.geonet.position_vector import LongPositionVector
 from flexstack.geonet.mib import MIB, AreaForwardingAlgorithm, GnSecurity
 from flexstack.geonet.router import Router
 import flexstack.geonet.router as router_mod
+from flexstack.linklayer.exceptions import SendingException
 
 MODULES = ["Props.C06"]
 DRIVERS = ["GeoRouter"]
@@ -97,6 +98,7 @@ class VTimer:
         self.interval, self.function, self.args = interval, function, list(args or [])
         self.daemon = True
         self.active = False
+        self.cancelled = False      # threading.Timer: cancel() before start() -> the function is never called
         self.station = VTimer.stations.get(id(getattr(function, "__self__", None)))
         self.is_cbf = getattr(function, "__name__", "") == "_cbf_timeout"
 
@@ -105,6 +107,8 @@ class VTimer:
         return (k[0].encode_to_int(), k[1])
 
     def start(self):
+        if self.cancelled:
+            return
         self.active = True
         if self.station is not None and self.is_cbf:
             self.station.log.append(("arm", self.key(), int(round(self.interval * 1e6))))
@@ -117,6 +121,7 @@ class VTimer:
                 del self.station.timers[self.key()]
             self.station.dead[self.key()] = self     # may still "fire" (race: expiry already under way when cancelled)
         self.active = False
+        self.cancelled = True
 
     def fire(self):
         self.active = False
@@ -129,7 +134,12 @@ class _LL(rs.LinkLayer):
         self.station = station
 
     def send(self, packet: bytes) -> None:
+        # the ATTEMPT is the action judged (and the model's `send`); with the fault armed the link layer then refuses the
+        # frame as a real one does when its queue is full / the interface is down
         self.station.log.append(("send", bytes(packet)))
+        if self.station.ll_fail:
+            self.station.ll_failed.append(bytes(packet))
+            raise SendingException("link layer refused the frame (fault injected by the harness)")
 
 
 _AREA_CALLS = []
@@ -344,6 +354,7 @@ class Station:
         self.r = Router(mib, verify_service=vs)
         self.log, self.timers, self.dead = [], {}, {}
         self.r.link_layer = _LL(self)
+        self.ll_fail, self.ll_failed = False, []   # fault: LinkLayer.send raises SendingException (`lf` option of rx / fire)
         self.cb_raises = False
         self.nested = None            # a reception to perform on another thread from inside the indication callback
         self.nested_result = None
@@ -509,7 +520,8 @@ class Station:
 
     def rx(self, fr, now, opts=None):
         """one frame from the link layer.  `fr` is the unsecured form of the frame unless it already carries NH = 2;
-        `opts`: sec (None or a mode of SEC_MODES: the frame is received secured), cb (the indication callback raises), thr
+        `opts`: sec (None or a mode of SEC_MODES: the frame is received secured), cb (the indication callback raises), lf
+        (every LinkLayer.send during this reception raises SendingException after the attempt was logged), thr
         (receive thread), nest (a second reception [frame hex, T, opts] performed on ANOTHER thread while this one sits in
         its indication callback).  Returns (canonical output, raw log entries, model line, decoded packet); the result of a
         nested reception is left in `self.nested_result`.  Re-entrant."""
@@ -529,6 +541,7 @@ class Station:
         self.log, self.f_calls, self.greedy_calls, self.verdicts = [], [], [], []
         del _AREA_CALLS[:]
         self.cb_raises = bool(opts.get("cb"))
+        saved_lf, self.ll_fail = self.ll_fail, bool(opts.get("lf"))
         self.nested_result, self.snap, self.cur_so = None, None, d["so"]
         thr = int(opts.get("thr", 0))
         nest = opts.get("nest")
@@ -545,6 +558,7 @@ class Station:
                 raise
             except Exception as e:  # noqa: BLE001 - whatever the real code raises into the receive loop is an observation
                 self.log.append(("exc", "rx", type(e).__name__))
+        self.ll_fail = saved_lf
         inner = self.nested_result if self.nested is None else None     # None when the callback was never reached
         snap = self.snap
         self.nested, self.snap = None, None
@@ -568,8 +582,9 @@ class Station:
         self.nested_result = inner
         return self.canon(entries, d, wire=True, buf=snap[0] if (snap is not None and inner is not None) else None), entries, line, d
 
-    def fire(self, key, wire=True):
+    def fire(self, key, wire=True, lf=False):
         self.log = []
+        self.ll_fail = bool(lf)
         t = self.timers.pop(key, None)
         if t is None:
             t = self.dead.pop(key, None)      # expiry racing with a cancellation: _cbf_timeout must find nothing to send
@@ -583,6 +598,7 @@ class Station:
                     raise
                 except Exception as e:  # noqa: BLE001 - an exception kills the timer thread: judged, not a harness crash
                     self.log.append(("exc", "timer", type(e).__name__))
+        self.ll_fail = False
         entries = self.log
         self.log = []
         return self.canon(entries, None, wire=wire), entries, f"wfire {key[0]} {key[1]}"
@@ -920,6 +936,32 @@ def gen_single(rng, n_ops):
                 if rng.random() < 0.3:
                     ops.append(["lsreq", a, rng.randrange(2), now])
             continue
+        if rng.random() < 0.05:
+            # link-layer fault (round 6): a multi-hop packet is received and the link layer REFUSES its re-transmission
+            # (LinkLayer.send raises SendingException: immediate forwarding, or the CBF copy at expiry); then the packet is
+            # overheard again - the exact frame or the copy of another forwarder (lower RHL), at once or a little later.
+            # The failed send changes nothing about what the station has seen: the copies are duplicates.
+            a = rng.choice(srcs)
+            kind = rng.choice(["tsb", "tsb", "gbc", "gbc", "gac", "guc", "ls_request", "ls_reply"])
+            T = now - rng.randrange(0, 800)
+            rhl = rng.choice([2, 3, 5, 10])
+            fr, sn = fresh(kind, a, rhl, 10, T, rng.random() < 0.7)
+            if rng.random() < 0.5:
+                ops.append(["rx", frame("beacon", lpv(srcs[-1], now, *pos[srcs[-1]]), payload=b"").hex(), now, now])
+            ops.append(["rx", fr.hex(), T, now, {"lf": 1}])
+            if kind == "gbc" and rng.random() < 0.6:
+                ops.append(["fire", [a, sn], {"lf": rng.randrange(2)}])
+            for _ in range(rng.randrange(1, 4)):
+                now += rng.choice([0, 0, rng.randrange(0, 300)])
+                cp = bytearray(fr)
+                cp[3] = rng.choice([rhl, rhl - 1, max(1, rhl - 2)])
+                o = {"lf": 1} if rng.random() < 0.2 else {}
+                if rng.random() < 0.2:
+                    o["thr"] = 1
+                ops.append(["rx", bytes(cp).hex(), T, now, o])
+            if kind == "gbc":
+                ops.append(["fire", [a, sn]])
+            continue
         if cfg["cbf"] and rng.random() < 0.2:
             # contention scenario: GBC into an area around EGO received while the station is inside it; before the timer
             # expires the station may move out of the area / toggle PAI, and the packet is overheard again (or not)
@@ -993,6 +1035,8 @@ def gen_single(rng, n_ops):
             o["cb"] = 1
         if rng.random() < 0.1:
             o["thr"] = 1
+        if rng.random() < 0.04:
+            o["lf"] = 1
         if o:
             op.append(o)
     return {"kind": "single", "cfg": cfg, "self": me, "ops": ops, "ego": list(EGO)}
@@ -1037,7 +1081,7 @@ def run_single(case, clock, with_oracle=True):
                 lines.append(line)
             else:
                 key = (op[1][0], op[1][1])
-                out, entries, line = st.fire(key)
+                out, entries, line = st.fire(key, lf=bool(len(op) > 2 and op[2] and op[2].get("lf")))
                 if with_oracle:
                     orc.fire(key, entries)
                 outs.append(out)
@@ -1050,6 +1094,7 @@ def run_single(case, clock, with_oracle=True):
                 bad.append((i, what, kf))
             orc.bad = []
     finally:
+        orc.ll_refused = len(st.ll_failed)
         st.close()
     return outs, lines, bad, orc
 
@@ -1157,6 +1202,20 @@ def check_single(ctx, case, clock, use_model=True):
             if aborted.get(t[1]) and "send " in acts:
                 ctx.cover("unsecured_forward_after_aborted_secured_same_thread")
             aborted[t[1]] = False
+    lf_keys = set()
+    for op in case["ops"]:
+        if op[0] == "rx":
+            dd = decode(bytes.fromhex(op[1]))
+            k = (dd.get("so"), dd.get("sn")) if dd["kind"] in MULTI else None
+            if k is not None and k in lf_keys:
+                ctx.cover("fault_ll_send_refused_then_copy_received")
+            if len(op) > 4 and op[4] and op[4].get("lf"):
+                ctx.cover("fault_ll_send_refused_rx_" + dd["kind"])
+                if k is not None:
+                    lf_keys.add(k)
+        elif op[0] == "fire" and len(op) > 2 and op[2] and op[2].get("lf"):
+            ctx.cover("fault_ll_send_refused_at_cbf_expiry")
+    ctx.cover("fault_ll_send_refused_attempts", orc.ll_refused)
     ctx.cover("op_nested_rx", sum(1 for op in case["ops"] if op[0] == "rx" and len(op) > 4 and op[4].get("nest")))
     ctx.cover("cfg_sec_%d%d" % tuple(int(x) for x in case["cfg"].get("sec", (0, 0))))
     ctx.cover("cfg_cbf" if case["cfg"]["cbf"] else "cfg_simple")
@@ -1460,16 +1519,20 @@ def conc_codes():
     return out
 
 
-def gen_conc(rng):
+def gen_conc(rng, focus=None):
     """Two link-layer receive threads on ONE router (each reception = `gn_data_indicate` as a link layer's receive loop calls
     it), then - sequentially - exact duplicates of everything, then the CBF timers.  Thread B receives the FIRST multi-hop
     packet(s) of a source the station may never have heard of (its LocTE and duplicate packet list are created by that
     reception); thread A receives beacons / SHBs / multi-hop packets of other sources (every reception purges the location
     table twice) or the very same frame as B.  The clock stands still and every position vector is fresh: nothing expires,
     and no source sends more distinct sequence numbers than the duplicate packet list holds - so EVERY (SO,SN) is inside
-    the duplicate-detection window for the whole case."""
-    cfg = dict(lifetime_s=rng.choice([5, 20]), dpl=rng.choice([2, 4, 8]), cbf=rng.randrange(2), pdr_max=10**9,
-               base=rng.randrange(10**9, 10**12), sec=[0, 0])
+    the duplicate-detection window for the whole case.
+    `focus="cbf"` (round 6): contention-based forwarding, one thread receives a GBC packet inside the destination area (it
+    is buffered), the other thread overhears a copy of the SAME packet (same RHL or the lower one of a faster forwarder),
+    possibly after a beacon / another packet; schedules are enumerated with pre-emption at every line / lock boundary
+    INSIDE `Router.gn_area_cbf_forwarding` (and its callees) only - see `ConcRun` for the rule judged."""
+    cfg = dict(lifetime_s=rng.choice([5, 20]), dpl=rng.choice([2, 4, 8]), cbf=1 if focus == "cbf" else rng.randrange(2),
+               pdr_max=10**9, base=rng.randrange(10**9, 10**12), sec=[0, 0])
     me, S, N, third = addr_int(1), addr_int(31), addr_int(32), addr_int(77)
     now = cfg["base"]
     sn = {S: rng.choice([0, 100, 65535]), N: rng.randrange(65536)}
@@ -1495,11 +1558,31 @@ def gen_conc(rng):
         T = now - rng.randrange(0, 900)
         return ["rx", frame(rng.choice(["beacon", "shb"]), lpv(a, T, *pos[a]), payload=b"s").hex(), T, now]
 
+    def overheard(op):
+        """the same packet as re-broadcast by another forwarder: only the RHL may differ"""
+        b = bytearray.fromhex(op[1])
+        b[3] = rng.choice([b[3], max(1, b[3] - 1), max(1, b[3] - rng.randrange(1, 4))])
+        return [op[0], bytes(b).hex(), op[2], op[3]]
+
     pre = []
     if rng.random() < 0.3:
         pre.append(single(S) if rng.random() < 0.5 else multi(S))      # S is already known
     if rng.random() < 0.5:
         pre.append(single(N))
+    if focus == "cbf":
+        tb = [multi(S, "gbc")]
+        if rng.random() < 0.3:
+            tb.insert(0, multi(S, rng.choice(["gbc", "tsb"])))
+        ta = [overheard(tb[-1])]
+        if rng.random() < 0.4:
+            ta.insert(0, single(N) if rng.random() < 0.5 else multi(N, rng.choice(["gbc", "tsb"])))
+        threads = [ta, tb]
+        if rng.random() < 0.5:
+            threads.reverse()
+        dup = [list(op) for th in threads for op in th if decode(bytes.fromhex(op[1]))["kind"] in MULTI]
+        rng.shuffle(dup)
+        return {"kind": "conc", "focus": "cbf", "cfg": cfg, "self": me, "ego": list(EGO), "pre": pre, "threads": threads,
+                "post": dup, "schedule": []}
     tb = [multi(S)]
     if rng.random() < 0.3:
         tb.append(multi(S))
@@ -1549,7 +1632,7 @@ class ConcRun:
         lm = _loct_mod()
         VTimer.stations.clear()
         cfg = dict(case["cfg"], sec=[0, 0])
-        self.bad, self.abort, self.excs = [], None, []
+        self.bad, self.abort, self.excs, self.bad_cbf = [], None, [], []
         with dsched.patched([router_mod, lm], extra={"Timer": VTimer}):
             st = Station(clock, cfg, case["self"], tuple(case.get("ego", EGO)))
             try:
@@ -1558,8 +1641,13 @@ class ConcRun:
                 with rs.quiet():
                     for op in case.get("pre", []):
                         st.r.gn_data_indicate(bytes.fromhex(op[1]))
+                focus = None
+                if case.get("focus") == "cbf":
+                    focus = [Router.gn_area_cbf_forwarding.__code__]
                 s = dsched.DSched(policy, line_files=[router_mod.__file__, lm.__file__], opcode_codes=conc_codes(),
-                                  max_steps=max_steps)
+                                  max_steps=max_steps, focus_codes=focus)
+                ev = self.cbf_ev = []
+                self._spy_cbf(st.r, ev)
 
                 def body(ops):
                     def f():
@@ -1577,6 +1665,7 @@ class ConcRun:
                     self.abort = f"deadlock {s.deadlock}"
                 self.excs = [type(t.exc).__name__ for t in s.threads if t.exc is not None]
                 if self.abort is None:
+                    self._judge_cbf(st, ev)
                     with rs.quiet():
                         for op in case.get("post", []):
                             st.r.gn_data_indicate(bytes.fromhex(op[1]))
@@ -1592,6 +1681,7 @@ class ConcRun:
                 self.log = st.log
             finally:
                 st.close()
+        self.bad = self.bad_cbf + self.bad
         ids = {}
         for ph in [case.get("pre", [])] + list(case["threads"]) + [case.get("post", [])]:
             for op in ph:
@@ -1615,6 +1705,91 @@ class ConcRun:
                 self.bad.append(f"two receive threads: {ids[(so, sn)]} ({so},{sn}) was delivered {dl} time(s) and re-transmitted "
                                 f"{tx} time(s) inside the duplicate-detection window (no entry can have expired: the clock "
                                 f"stands still and every position vector is fresh)")
+
+
+    @staticmethod
+    def _spy_cbf(r, ev):
+        """event log (total order - one thread runs at a time) of the CBF buffer operations of the router: calls of
+        `gn_area_cbf_forwarding` / `_cbf_discard` with the thread that makes them, and every acquisition of `_cbf_lock`"""
+        fwd, disc, lock = r.gn_area_cbf_forwarding, r._cbf_discard, r._cbf_lock
+
+        def key_of(k):
+            return (k[0].encode_to_int(), k[1])
+
+        class LockSpy:
+            def acquire(self, *a, **k):
+                got = lock.acquire(*a, **k)
+                if got:
+                    ev.append(("acq", threading.get_ident()))
+                return got
+
+            def release(self):
+                return lock.release()
+
+            def locked(self):
+                return lock.locked()
+
+            def __enter__(self):
+                self.acquire()
+                return True
+
+            def __exit__(self, *a):
+                self.release()
+                return False
+
+        def spy_fwd(basic_header, common_header, ext, packet, *a, **k):
+            key = key_of((ext.so_pv.gn_addr, ext.sn))
+            ev.append(("fwd_in", threading.get_ident(), key))
+            res = None
+            try:
+                res = fwd(basic_header, common_header, ext, packet, *a, **k)
+                return res
+            finally:
+                ev.append(("fwd_out", threading.get_ident(), key, res))
+
+        def spy_disc(k, *a, **kw):
+            res = disc(k, *a, **kw)
+            ev.append(("disc_out", threading.get_ident(), key_of(k), res))
+            return res
+        r.gn_area_cbf_forwarding, r._cbf_discard, r._cbf_lock = spy_fwd, spy_disc, LockSpy()
+
+    def _judge_cbf(self, st, ev):
+        """CBF clause, two receive threads (both receptions are complete, no timer has expired - the harness owns the
+        timers): once a thread has TESTED whether its copy of (SO,SN) is already buffered (its first `_cbf_lock` section
+        inside `gn_area_cbf_forwarding`) and goes on to buffer it, a duplicate overheard by another thread from then on
+        (its `_cbf_discard` returns later) must drop the copy - it may not be left waiting in the buffer, to be
+        re-broadcast at expiry.  (A duplicate handled BEFORE that test is not judged here: see design notes, round 6.)"""
+        for i, e in enumerate(ev):
+            if e[0] != "fwd_in":
+                continue
+            tid, key = e[1], e[2]
+            out = next((j for j in range(i + 1, len(ev)) if ev[j][0] == "fwd_out" and ev[j][1] == tid), None)
+            if out is None or ev[out][3] is not True:
+                continue
+            t1 = next((j for j in range(i + 1, out) if ev[j][0] == "acq" and ev[j][1] == tid), None)
+            if t1 is None:
+                continue
+            late = [j for j in range(t1 + 1, len(ev)) if ev[j][0] == "disc_out" and ev[j][1] != tid and ev[j][2] == key]
+            t = st.timers.get(key)
+            if not late or t is None:
+                continue
+            n0 = len(st.log)
+            st.timers.pop(key, None)
+            try:
+                with rs.quiet():
+                    st.on_thread(TIMER_THREAD, t.fire)
+            except Infra:
+                raise
+            except Exception as e2:  # noqa: BLE001
+                self.excs.append(type(e2).__name__)
+            sent = [x for x in st.log[n0:] if x[0] == "send"]
+            if sent:
+                where = "while the copy was being buffered (after the 'already buffered?' test, before the insertion)" \
+                    if late[0] < out else "after the copy was buffered"
+                self.bad_cbf.append(
+                    f"two receive threads, CBF: gbc ({key[0]},{key[1]}) - a duplicate was overheard {where} and handled "
+                    f"completely (DPD -> _cbf_discard returned {ev[late[0]][3]}), yet the copy stayed in the CBF buffer and was "
+                    f"re-broadcast at timer expiry (RHL {sent[0][1][3]}): a waiting copy must be dropped when a duplicate is overheard")
 
 
 def check_conc(ctx, case, clock, cap, pct=2, fine_cap=0):
@@ -1642,7 +1817,12 @@ def check_conc(ctx, case, clock, cap, pct=2, fine_cap=0):
         if found:
             return []
         return handle(ConcRun(case, dsched.Replay(prefix), clock)).steps
-    dsched.enumerate_schedules(once, 1, cap, ctx.rng, kinds=dsched.COARSE_KINDS, order="bfs")
+    if case.get("focus"):
+        # pre-emption points exist only inside the focus function: every kind of point (line, lock boundary), <= 1 pre-emption
+        dsched.enumerate_schedules(once, 1, cap, ctx.rng, kinds=dsched.BRANCH_KINDS | {"line"}, order="bfs")
+        ctx.cover("conc_focus_%s_cases" % case["focus"])
+    else:
+        dsched.enumerate_schedules(once, 1, cap, ctx.rng, kinds=dsched.COARSE_KINDS, order="bfs")
     if fine_cap and not found:
         dsched.enumerate_schedules(once, 1, fine_cap, ctx.rng)
     est = 400
@@ -1711,6 +1891,8 @@ def run(ctx):
             check_conc(ctx, case, clock, cap=ctx.scale(30, 200), pct=ctx.scale(2, 10))
             if i == 0:
                 ctx.sample("conc", {k: case[k] for k in ("cfg", "threads")})
+        for i in range(ctx.scale(3, 60)):           # CBF: a duplicate overheard while the other thread buffers its copy
+            check_conc(ctx, gen_conc(ctx.rng, focus="cbf"), clock, cap=ctx.scale(30, 150), pct=0)
         flush_model(ctx)
 
 
@@ -1744,6 +1926,10 @@ def search(ctx):
                 if ctx.violations:
                     break
                 check_conc(ctx, gen_conc(ctx.rng), clock, cap=ctx.scale(90, 400), pct=ctx.scale(6, 20), fine_cap=ctx.scale(100, 800))
+            for _ in range(ctx.scale(10, 100)):
+                if ctx.violations:
+                    break
+                check_conc(ctx, gen_conc(ctx.rng, focus="cbf"), clock, cap=ctx.scale(120, 400), pct=0)
             for _ in range(ctx.scale(120, 3000)):
                 if ctx.violations:
                     break
